@@ -38,12 +38,11 @@ from ..engine.report import AnalysisError, Run
 from ..engine.resolver import Program, walk_no_nested
 from ..engine.terms import Poly
 from ._c04_util import (
-    STOPPED, mk_system, with_op, LinInterp, StoreInterp, Sweep, compare_pairs, flip_strict, mirror, reach, splice, step_function, sweep_roles,
+    STOPPED, NotReached, mk_system, with_op, LinInterp, StoreInterp, Sweep, compare_pairs, flip_strict, mirror, reach, splice, step_function, sweep_roles,
     synth,
 )
 from .c03 import BASE, BOUNDS, MAT, _report_orderings, check_quantity_truthiness, mk_excl, mk_proposal
 
-CALC_HINT = "_calc_target_power"
 CTP = f"{MAT}:Matryoshka.calculate_target_power"
 STAT = f"{MAT}:Matryoshka.get_status"
 BOUNDS_HINTS = {"clamp": "clamp_to_bounds", "adjust": "adjust_exclusion_bounds",
@@ -773,11 +772,11 @@ def structural_controls(prog: Program) -> list[tuple[str, str, str, str, str]]: 
 
     # 2. the priority cut of get_status loses / gains the equal priority
     edits = []
-    prio_name = next((k for k, v in sws.base.items() if v == OWN and not isinstance(v, bool)), sws.entry.params[2])
+    prio_names = {k for k, v in sws.base.items() if v == OWN and not isinstance(v, bool)} | {sws.entry.params[2]}
     for c in compares(_scope(prog, sws) + [sws.loop.iter] + list(sws.pro)):
         for i, a, _op, b in compare_pairs(c):
             for x, y in ((a, b), (b, a)):
-                if isinstance(x, ast.Attribute) and x.attr == "priority" and _is_name(y, prio_name) and not edits:
+                if isinstance(x, ast.Attribute) and x.attr == "priority" and isinstance(y, ast.Name) and y.id in prio_names and not edits:
                     t = flip_strict(c, i)
                     if t:
                         edits.append((c, t))
@@ -850,7 +849,7 @@ def structural_controls(prog: Program) -> list[tuple[str, str, str, str, str]]: 
     ct = prog.func(CTP)
     edits = []
     for h in reach(prog, ct):
-        if h.name == swc.fn.name:
+        if h.name == swc.fn.name and h.node is not ct.node:
             continue
         for n in walk_no_nested(h.node):
             if isinstance(n, ast.Expr) and isinstance(n.value, ast.Call) and isinstance(n.value.func, ast.Attribute) \
@@ -863,7 +862,7 @@ def structural_controls(prog: Program) -> list[tuple[str, str, str, str, str]]: 
     # 9. the old proposal of the actor is not taken out before the new one is added
     edits = []
     for h in reach(prog, ct):
-        if h.name == swc.fn.name:
+        if h.name == swc.fn.name and h.node is not ct.node:
             continue
         for n in walk_no_nested(h.node):
             if isinstance(n, ast.Expr) and isinstance(n.value, ast.Call) and isinstance(n.value.func, ast.Attribute) \
@@ -878,7 +877,7 @@ def structural_controls(prog: Program) -> list[tuple[str, str, str, str, str]]: 
              for t in n.targets if isinstance(t, ast.Name)}  # locals that receive the sweep's result
     for by_state in (True, False):
         for h in reach(prog, ct):
-            if h.name == swc.fn.name:
+            if h.name == swc.fn.name and h.node is not ct.node:
                 continue
             for c in compares(list(h.node.body)):
                 if len(c.ops) != 1 or not isinstance(c.ops[0], (ast.Eq, ast.NotEq)) or edits:
@@ -906,6 +905,18 @@ def structural_controls(prog: Program) -> list[tuple[str, str, str, str, str]]: 
 
 def run_rules(run: Run, prog: Program, tier: str = "quick") -> None:
     check_keep(run, prog)
+    try:
+        calc_sweep(prog)
+    except NotReached as exc:
+        # with a bucket for the group and system bounds in place the public method never gets to the
+        # sweep: no target is computed at all (the sweep-level rules have nothing to run on)
+        ct = prog.func(CTP)
+        run.analysed(ct.qual)
+        run.violation("C04.RESULT", ct.qual, "calculate_target_power reaches the target sweep",
+                      f"for a component group that has a bucket of proposals and system bounds, no target is "
+                      f"computed: {exc}", node=ct.node, file=ct.file)
+        check_report(run, prog)
+        return
     check_sib(run, prog)
     check_adopt(run, prog, tier)
     check_report(run, prog)
